@@ -2,6 +2,7 @@ import CobaldVerif.Drive.C06
 import CobaldVerif.Drive.C07
 import CobaldVerif.Drive.C08
 import CobaldVerif.Drive.C17
+import CobaldVerif.Drive.C19
 
 namespace Cobald.Drive
 open Lean
@@ -12,6 +13,7 @@ def dispatch (prop : String) (j : Json) : Except String Json :=
   | "C07" => C07.handle j
   | "C08" => C08.handle j
   | "C17" => C17.handle j
+  | "C19" => C19.handle j
   | p => throw s!"unknown property {p}"
 
 /-- one request line `<prop> <json>` → one canonical JSON line -/
